@@ -53,9 +53,10 @@ def check(index, ctx):
     n_part = 0
     for run in rs:
         rows_atom = "tensors" if run.entry == "backward" else "features"
-        for res in _pipe.main_paths(run)[:1]:
-            if _pipe.blocking(res):
-                continue
+        cand = [r for r in _pipe.main_paths(run) if not _pipe.blocking(r) and any(e["axis"] == 0 and "_differentiate" in e["function"] for e in _pipe.evs(r, "unpack"))]
+        if not cand and _pipe.main_paths(run):
+            ctx.undecided("R1", run.label, "no path slices the rows of the cotangents", "")
+        for res in cand[:1]:
             sl = [e for e in _pipe.evs(res, "unpack") if e["axis"] == 0 and e["layout_how"] in (None, "stack", "vstack") and "_differentiate" in e["function"]]
             rng = [e for e in _pipe.evs(res, "range") if "_differentiate" in e["function"]]
             if not sl:
